@@ -270,7 +270,12 @@ type world struct {
 
 func (w *world) prepare(c Case) {
 	os.MkdirAll(w.dir, 0755)
-	cfg := "basedir = " + w.dir + "\nsystemuser = admin\ntimeout = 1\nlogin_timeout = 1\n"
+	// generous time-outs (the machine may be busy); 1 s only where a silent device is part of the case
+	to := "5"
+	if c.FaultKind == "silence" {
+		to = "1"
+	}
+	cfg := "basedir = " + w.dir + "\nsystemuser = admin\ntimeout = " + to + "\nlogin_timeout = " + to + "\n"
 	if c.Marker != "unconfigured" {
 		cfg += "checkbanner = NetSPoC\n"
 	}
@@ -870,7 +875,21 @@ type outcome struct {
 	ranApr   bool
 }
 
+// evalCase runs the case; a run that hit a time-out although the case contains no silent device
+// (overloaded machine) is repeated once.
 func evalCase(w *world, drv *Nadrv, c Case, prop string) outcome {
+	o := evalCaseOnce(w, drv, c, prop)
+	spurious := func(r runResult) bool {
+		t := r.stderr + r.stdout
+		return c.FaultKind != "silence" && (r.timedOut || strings.Contains(t, "Timeout exceeded") || strings.Contains(t, "timer expired"))
+	}
+	if spurious(o.cmp) || spurious(o.apr) {
+		o = evalCaseOnce(w, drv, c, prop)
+	}
+	return o
+}
+
+func evalCaseOnce(w *world, drv *Nadrv, c Case, prop string) outcome {
 	o := outcome{c: c}
 	w.prepare(c)
 	if c.OddAction {
